@@ -293,6 +293,51 @@ def pairs():
         scope.do(_sleep(5), volatile=True)
         await b.probe('leave Scope[volatile child]', lambda: scope.__aexit__(None, None, None))
 
+    for label, make_error in (('reported failure', lambda: KeyError('boom')),
+                              ('failure that scopes do not report',
+                               lambda: usim.TaskCancelled(None, 'boom'))):
+        def make(label=label, make_error=make_error):
+            async def case(b):
+                # A child fails while the wake-up of the body is queued already: the body goes
+                # on and leaves the block while the abort is still pending. Whoever became
+                # runnable before the failure still gets its turn before the block is left.
+                name = 'leave Scope[child failed, abort pending; %s]' % label
+                seen = []
+
+                async def competitor(index):
+                    await instant
+                    await instant
+                    seen.append(index)
+
+                async def failing():
+                    await instant
+                    raise make_error()
+
+                for index in range(b.k):
+                    b.scope.do(competitor(index))
+                started = time.now
+                try:
+                    async with Scope() as scope:
+                        scope.do(failing())
+                        await instant
+                        await instant
+                        ahead = list(seen)
+                except usim.Concurrent:
+                    pass
+                after = list(seen)
+                starved = [index for index in range(b.k) if index not in after]
+                b.judged.append((name, 'same-time' if time.now == started else 'time-advanced',
+                                 starved))
+                if ahead:
+                    return          # (the competitors were through already: nothing to see)
+                if starved and time.now == started:
+                    b.sess.violation(
+                        'c20:no-yield:leave Scope',
+                        'operation %s completed at %r before %d of %d runnable activities had '
+                        'a turn' % (name, started, len(starved), b.k))
+            return case
+        out.append(('leave Scope[child failed, abort pending; %s]' % label, make()))
+
     @add('leave until[empty, eternity]')
     async def _(b):
         scope = until(eternity)
